@@ -213,7 +213,7 @@ def observe(v, sid, nodes, mode, names, conforming, want, lines=None):
     if lines is None:
         lines = [msh(v, sid)] + [seg_text(n, i + 1) for i, n in enumerate(names[1:])]
     text = "\r".join(lines)
-    e = {"v": v, "sid": sid, "mode": mode, "want": want, "struct": nodes, "input": names, "tree": [], "ec": EC,
+    e = {"v": v, "sid": sid, "msgname": sid, "mode": mode, "want": want, "struct": nodes, "input": names, "tree": [], "ec": EC,
          "lines_in": [cps(x) for x in lines], "lines_fg": [], "lines_nofg": [], "out_fg": "ok", "out_nofg": "ok",
          "valid": False, "conforming": conforming, "verr": ""}
     try:
